@@ -95,6 +95,18 @@ def build_everything(pid, need_model=True):
     return obl, rep
 
 
+def golden_verdicts(res):
+    """case name -> (sha of its spec, sorted classes of its predicate failures)"""
+    import hashlib
+    out = {}
+    fails = {}
+    for f in res.get('failures', []):
+        fails.setdefault(f['case'], set()).add(f.get('class') or 'unclassified')
+    for name, spec in res.get('specs', {}).items():
+        out[name] = (hashlib.sha256("\n".join(spec).encode()).hexdigest()[:16], sorted(fails.get(name, [])))
+    return out
+
+
 def main():
     args = sys.argv[1:]
     if not args:
@@ -183,6 +195,36 @@ def main():
         obl.setdefault('corr:' + comp, (True, 'model and implementation agree bit for bit on every history of this run'))
     broken = [k for k, (ok, _) in obl.items() if not ok]
 
+    # ---- golden verdicts: histories generated from fixed seeds whose verdict on the pinned tree is recorded in
+    # corpus/golden_<pid>.json.  A recorded finding is identified by the inputs that failed there: a history that
+    # passed the property's predicate on the pinned tree and fails it now is a *different* violation, even when its
+    # failure falls into a recorded class.
+    gpath = os.path.join(VERIF, 'corpus', 'golden_%s.json' % pid)
+    if os.path.exists(gpath) and impl_ok and not replay:
+        try:
+            golden = json.load(open(gpath))
+            for gseed in golden['seeds']:
+                gctx = props.Ctx(pid, 'quick', Rng(gseed), os.path.join(outdir, 'golden_%d' % gseed), with_model=False)
+                gctx.golden = True
+                gres = P['run'](gctx)
+                now = golden_verdicts(gres)
+                rec = golden['verdicts'].get(str(gseed), {})
+                for name, (sha, classes) in now.items():
+                    g = rec.get(name)
+                    if g is None or g['sha'] != sha:
+                        continue                    # the generator changed: this history has no recorded verdict
+                    if classes and not g['classes']:
+                        f = dict(next(x for x in gres['failures'] if x['case'] == name))
+                        f['message'] = "this history satisfied the property on the pinned tree and fails now: " + f.get('message', '')
+                        f['class'] = None
+                        f['golden_pass'] = True
+                        results.setdefault('failures', []).append(f)
+                results['n_eval'] = results.get('n_eval', 0) + gres.get('n_eval', 0)
+                results.setdefault('dist', {})['golden_histories_%d' % gseed] = len(now)
+        except Exception as ex:
+            traceback.print_exc()
+            obl['run:golden'] = (False, repr(ex))
+            broken = [k for k, (ok, _) in obl.items() if not ok]
     # ---- known findings: replay stored witnesses, print one line per listed finding
     kf = json.load(open(os.path.join(VERIF, 'known_findings.json')))
     listed = [f for f in kf.get('findings', []) if f['property'] == pid]
@@ -220,6 +262,9 @@ def main():
         try:
             if f.get('spec_path') and os.path.exists(f['spec_path']):
                 shutil.copy(f['spec_path'], rp)
+                if f.get('golden_pass'):
+                    body = open(rp).read()
+                    open(rp, 'w').write("#golden-pass (recorded verdict on the pinned tree: the property's predicate held)\n" + body)
                 if f.get('hist_path') and os.path.exists(f['hist_path']):
                     shutil.copy(f['hist_path'], rp + '.hist')
             else:
